@@ -54,6 +54,8 @@ type CliObs struct {
 	SentN       int      `json:"sentN"`  // script symbols actually sent
 	LastHS      int      `json:"lastHs"` // index of the symbol after which EstablishSession returned (-1: none)
 	CliClosed   bool     `json:"cliClosed"`
+	CloseHangs  bool     `json:"closeHangs,omitempty"` // ClientChannel.Close did not return within the release bound
+	Leftover    string   `json:"leftover,omitempty"`
 	ClosedAtRet bool     `json:"closedAtReturn"`
 	Live        bool     `json:"live"`               // the client still consumes envelopes after the last symbol
 	C2SClear    []M      `json:"c2sClear,omitempty"` // client envelopes found in cleartext on the raw capture
@@ -261,13 +263,37 @@ func runClientScript(c *CliCase, streamItems *int) *CliObs {
 	obs.C2SClear, rest = clearPrefix(cl.Captured())
 	obs.C2SRestTLS = looksLikeTLS(rest)
 	cancel()
-	_ = cc.Close()
+	// Everything has settled: no library call is in progress. A library goroutine that sits in stopReceiver now waits for a
+	// receiver that will never end (calling Close on top of it would block on the same Once, and a mutex wait freezes the bubble).
+	if lib, _ := bubbleLeftovers(); true {
+		for _, g := range lib {
+			if strings.Contains(g, ").stopReceiver(") {
+				obs.CloseHangs = true
+				obs.Leftover = truncate(g, 2500)
+			}
+		}
+	}
+	if !obs.CloseHangs {
+		_ = cc.Close()
+	}
 	peer.Close()
 	if !cl.Closed() {
 		_ = cl.Close()
 	}
 	time.Sleep(6 * time.Second)
 	synctest.Wait()
+	return obs
+}
+
+// c08InBubble runs one case in a bubble; when the channel's Close never returns the bubble cannot end ("blocked goroutines
+// remain"): that panic is absorbed, the verdict is in the observation.
+func c08InBubble(t *testing.T, c *CliCase) *CliObs {
+	var obs *CliObs
+	if p := Protect(func() { synctest.Test(t, func(t *testing.T) { obs = RunClientScript(c) }) }); p != "" {
+		if obs == nil || !obs.CloseHangs || !strings.Contains(p, "blocked goroutines remain") {
+			panic(p)
+		}
+	}
 	return obs
 }
 
@@ -279,6 +305,9 @@ func judgeC08(c *CliCase, obs *CliObs, o *Outcome) {
 	if !obs.Returned {
 		o.Fail("C08/never-returned", "EstablishSession did not return (context deadline %v)", handshakeTimeout)
 		return
+	}
+	if obs.CloseHangs {
+		o.Fail("C08/close-never-returns", "after this handshake a library goroutine waits for ever for the channel's receiver to end (ClientChannel.Close can never return):\n%s", obs.Leftover)
 	}
 	// (2) truthful establishment
 	reported := obs.SesState == "established" || (obs.Established && obs.LastHS == obs.SentN-1)
@@ -479,7 +508,7 @@ func TestC08Enum(t *testing.T) {
 			o := &Outcome{}
 			var obs *CliObs
 			rec.Journal(&c)
-			synctest.Test(t, func(t *testing.T) { obs = RunClientScript(&c) })
+			obs = c08InBubble(t, &c)
 			live = obs.Live && obs.Panic == ""
 			if mine {
 				judgeC08(&c, obs, o)
@@ -556,7 +585,7 @@ func TestC08Replay(t *testing.T) {
 		o := &Outcome{}
 		var obs *CliObs
 		rec.Journal(&c)
-		synctest.Test(t, func(t *testing.T) { obs = RunClientScript(&c) })
+		obs = c08InBubble(t, &c)
 		judgeC08(&c, obs, o)
 		classifyCli(&c, obs, o)
 		rec.Eval(&c, o)
